@@ -82,6 +82,181 @@ Section Statements.
   Proof. exact (select_checks_sum sum sum_eqb H). Qed.
 End Statements.
 
+(* ==== the WHOLE verdict of open + check_integrity() (model: coq/Integrity/Verdict.v, proofs VerdictP.v):
+   header validation, finalize (layout from the file LENGTH), slot selection, quick path / repair at
+   open, and in check_integrity the layout_matched flag, the allocator-state comparison and the table
+   recount.  Alterations now include the unchecksummed header fields (region counts, god-byte flags,
+   geometry) and the file length.  Premises beyond sum_eqb_spec / H_inj: the allocator-state equality
+   test is reflexive; the page size the database is opened with is positive.  Names of the model are
+   used qualified (Verdict.x, Layout.x) so that nothing later in this file is shadowed. *)
+From RV Require Storage.Layout Integrity.Verdict Integrity.VerdictP Integrity.VerdictEx.
+
+Section StatementsFull.
+  Variable sum : Type.
+  Variable sum_eqb : sum -> sum -> bool.
+  Variable H : list N -> sum.
+  Variable parse : list N -> list (N * sum).
+  Variable A : Type.                                     (* allocator states *)
+  Variable a_eqb : A -> A -> bool.                       (* the code compares their XXH3 hashes *)
+  Variable rebuild : Layout.db_layout -> image -> slot sum -> option A.   (* rebuild_allocator_state *)
+  Variable counted : image -> slot sum -> bool.          (* stored table lengths = recount *)
+  Variable ps_exp : N.                                   (* page size the database is opened with *)
+  Variable d : nat.
+  Hypothesis sum_eqb_spec : forall a b, sum_eqb a b = true <-> a = b.
+  Hypothesis H_inj : forall x y, H x = H y -> x = y.
+  Hypothesis a_eqb_refl : forall a, a_eqb a a = true.
+  Hypothesis ps_pos : (0 < ps_exp)%N.
+
+  Local Notation file := (Verdict.file sum A).
+  Local Notation ost := (Verdict.ost sum A).
+  Local Notation full := (Verdict.full sum sum_eqb H parse A a_eqb rebuild counted ps_exp d).
+  Local Notation open_stage := (Verdict.open_stage sum sum_eqb H parse A rebuild counted ps_exp d).
+  Local Notation check_stage := (Verdict.check_stage sum sum_eqb H parse A a_eqb rebuild d).
+  Local Notation FOk := (Verdict.FOk sum A).
+  Local Notation db_of := (Verdict.f_db sum A).
+  Local Notation slot_of_ost := (Verdict.o_slot sum A).
+  Local Notation layout_of_ost := (Verdict.o_L sum A).
+  Local Notation len_layout := (Verdict.len_layout sum A).
+
+  (* (a) the sentence design.d/C12.md used to assert without proof.  Whatever the file: if the whole
+     verdict is Ok(_), the slot served is the one Merkle.recover serves on the same file (Clean or
+     Repaired -- a repair at open is followed by a clean check), its trees verify, and check_integrity
+     serves the slot the open served; if recover fails, the whole verdict is an error.  So header
+     validation, finalize, the allocator comparison and the recount can only turn a verdict into
+     Ok(false) or Err; they never change the served slot, hence (Verdict.served) the served contents. *)
+  Theorem c12_verdict_monotone : forall f : file,
+    (forall c o, full f = FOk c o ->
+       (recover sum sum_eqb H parse d (db_of f) = Clean sum (slot_of_ost o) \/
+        recover sum sum_eqb H parse d (db_of f) = Repaired sum (slot_of_ost o)) /\
+       trees_verify sum sum_eqb H parse d (pages sum (db_of f)) (slot_of_ost o) = true /\
+       (exists o1, open_stage f = Some o1 /\ slot_of_ost o1 = slot_of_ost o)) /\
+    (recover sum sum_eqb H parse d (db_of f) = Failed sum -> Verdict.is_err sum A (full f)).
+  Proof. exact (VerdictP.verdict_monotone sum sum_eqb H parse A a_eqb rebuild counted ps_exp d). Qed.
+
+  (* (b) for every alteration f' of a file x0 with a genuine slot s0: a verdict Ok(_) whose served slot
+     is a one-sided alteration (or copy) of s0 serves exactly the contents s0's commit stored, every
+     covered page is unaltered, AND the layout the database then works with is the one
+     layout_from_file_len gives for the actual length and the header's geometry: a valid layout of
+     exactly that length with the page size the database was opened with -- the stored region counts
+     never reach a page address.  (Premise on o_fellback: the fall-back of do_repair does not re-check the
+     other slot's checksum, as in c12_repaired_is_committed.) *)
+  Theorem c12_no_false_clean_full : forall (x0 : db sum) (f' : file) c (o : ost) (s0 : slot sum),
+    full f' = FOk c o ->
+    genuine sum sum_eqb H parse d x0 s0 -> slot_near sum (slot_of_ost o) s0 ->
+    (Verdict.o_fellback sum A o = true -> slot_sum_ok sum sum_eqb H (slot_of_ost o) = true) ->
+    (s_payload sum (slot_of_ost o) = s_payload sum s0 /\
+     serve sum parse d (pages sum (db_of f')) (slot_of_ost o) = serve sum parse d (pages sum x0) s0 /\
+     forall q, In q (cov sum parse d (pages sum x0) s0) -> pages sum (db_of f') q = pages sum x0 q) /\
+    (Verdict.f_ps sum A f' = ps_exp /\ len_layout f' = Some (layout_of_ost o) /\
+     Layout.valid_layout (layout_of_ost o) /\
+     Layout.dl_len (layout_of_ost o) = Verdict.f_len sum A f' /\
+     Layout.dl_full (layout_of_ost o) =
+       Layout.mkRL (Verdict.f_cap sum A f') (Verdict.f_hp sum A f') (Verdict.f_ps sum A f') /\
+     (Layout.dl_num_regions (layout_of_ost o) <= MAX_REGIONS)%N).
+  Proof.
+    exact (VerdictP.no_false_clean_full sum sum_eqb H parse A a_eqb rebuild counted ps_exp d
+             sum_eqb_spec H_inj ps_pos).
+  Qed.
+
+  (* the layout the OPEN works with: the length's, or the stored one when it describes the length (then
+     equal to the length's up to Layout.dl_norm: same regions, addresses, membership -- c20_norm_equiv) *)
+  Theorem c12_open_layout : forall (f : file) (o : ost),
+    open_stage f = Some o ->
+    Verdict.f_ps sum A f = ps_exp /\
+    Layout.valid_layout (layout_of_ost o) /\ Layout.dl_len (layout_of_ost o) = Verdict.f_len sum A f /\
+    Layout.dl_full (layout_of_ost o) =
+      Layout.mkRL (Verdict.f_cap sum A f) (Verdict.f_hp sum A f) (Verdict.f_ps sum A f) /\
+    (Layout.dl_num_regions (layout_of_ost o) <= MAX_REGIONS)%N /\
+    (len_layout f = Some (layout_of_ost o) \/
+     (Verdict.f_rr sum A f = false /\ layout_of_ost o = Verdict.stored_layout sum A f /\
+      len_layout f = Some (Layout.dl_norm (layout_of_ost o)))).
+  Proof. exact (VerdictP.open_layout sum sum_eqb H parse A rebuild counted ps_exp d ps_pos). Qed.
+
+  (* (c) a cleanly closed file (no RECOVERY_REQUIRED, stored layout = length) whose length alone is
+     changed: truncation is always an error at open; after an extension a verdict Ok(_) is possible only
+     with the layout recomputed from the NEW length (already at open) -- never with the old layout. *)
+  Theorem c12_length_alteration_detected : forall (f0 f' : file),
+    Verdict.hdr_ok sum A ps_exp f0 = true -> Verdict.f_rr sum A f0 = false ->
+    Layout.dl_len (Verdict.stored_layout sum A f0) = Verdict.f_len sum A f0 ->
+    Verdict.same_header sum A f' f0 -> Verdict.f_len sum A f' <> Verdict.f_len sum A f0 ->
+    ((Verdict.f_len sum A f' < Verdict.f_len sum A f0)%N -> full f' = Verdict.FErrOpen sum A) /\
+    (forall c o, full f' = FOk c o ->
+       (Verdict.f_len sum A f0 < Verdict.f_len sum A f')%N /\ len_layout f' = Some (layout_of_ost o) /\
+       Layout.dl_len (layout_of_ost o) = Verdict.f_len sum A f' /\
+       layout_of_ost o <> Verdict.stored_layout sum A f0 /\
+       exists o1, open_stage f' = Some o1 /\ layout_of_ost o1 = layout_of_ost o).
+  Proof. exact (VerdictP.length_alteration_detected sum sum_eqb H parse A a_eqb rebuild counted ps_exp d ps_pos). Qed.
+
+  (* (d) after any verdict Ok(_) -- in particular after a reported repair -- a second check_integrity is
+     Ok(true) and leaves the state as it is *)
+  Theorem c12_second_check_clean : forall (f : file) c (o : ost),
+    full f = FOk c o -> check_stage f o = Verdict.COk sum A true o.
+  Proof. exact (VerdictP.second_check_clean_full sum sum_eqb H parse A a_eqb rebuild counted ps_exp d a_eqb_refl). Qed.
+
+  (* the well-formedness premises (file written by a clean close / left by a crash of a well-formed
+     history) suffice for Ok(true): the theorems above are not about an empty class of files *)
+  Theorem c12_closed_file_clean : forall f : file,
+    Verdict.wf_closed sum sum_eqb H parse A a_eqb rebuild counted ps_exp d f ->
+    exists o, full f = FOk true o /\ slot_of_ost o = primary sum (db_of f) /\
+              layout_of_ost o = Verdict.stored_layout sum A f.
+  Proof. exact (VerdictP.closed_file_clean sum sum_eqb H parse A a_eqb rebuild counted ps_exp d ps_pos). Qed.
+
+  Theorem c12_crashed_file_clean : forall f : file,
+    Verdict.wf_crashed sum sum_eqb H parse A rebuild ps_exp d f ->
+    exists o s, full f = FOk true o /\ slot_of_ost o = s /\
+      (recover sum sum_eqb H parse d (db_of f) = Clean sum s \/
+       recover sum sum_eqb H parse d (db_of f) = Repaired sum s).
+  Proof. exact (VerdictP.crashed_file_clean sum sum_eqb H parse A a_eqb rebuild counted ps_exp d a_eqb_refl). Qed.
+End StatementsFull.
+
+(* non-vacuity of the whole-verdict theorems: the toy forest inside a 19456-byte file (VerdictEx.v) *)
+Example c12_full_nonvacuous_wf :
+  Verdict.wf_closed _ bytes_eqb H_id toy_parse _ bytes_eqb VerdictEx.toy_rebuild VerdictEx.toy_counted 512 3
+    VerdictEx.toy_closed /\
+  Verdict.wf_crashed _ bytes_eqb H_id toy_parse _ VerdictEx.toy_rebuild 512 3 VerdictEx.toy_crashed /\
+  (forall a, bytes_eqb a a = true) /\ (0 < 512)%N.
+Proof.
+  split; [|split; [|split]].
+  - unfold Verdict.wf_closed. repeat (split; [vm_compute; reflexivity|]).
+    exists VerdictEx.toy_alloc, VerdictEx.toy_alloc. vm_compute. repeat split; reflexivity.
+  - unfold Verdict.wf_crashed. repeat (split; [vm_compute; reflexivity|]).
+    exists (VerdictEx.toy_L 2 (Some 5%N)), slot_old. vm_compute.
+    split; [reflexivity|]. split; [right; reflexivity|]. split; [left; reflexivity|].
+    eexists; reflexivity.
+  - intros a. apply bytes_eqb_spec. reflexivity.
+  - reflexivity.
+Qed.
+
+Example c12_full_nonvacuous_verdicts :
+  let f := VerdictEx.toy_file in let L := VerdictEx.toy_L in
+  let len := VerdictEx.toy_len in let ok := Some VerdictEx.toy_alloc in
+  (* unaltered: clean close / crash image (older commit served after the repair at open) *)
+  VerdictEx.vclass_of (VerdictEx.tfull VerdictEx.toy_closed) = VerdictEx.VTrue slot_new (L 2 (Some 5))%N /\
+  VerdictEx.vclass_of (VerdictEx.tfull VerdictEx.toy_crashed) = VerdictEx.VTrue slot_old (L 2 (Some 5))%N /\
+  (* length: one page cut, one page / one region / 100 bytes appended *)
+  VerdictEx.vclass_of (VerdictEx.tfull (f (len - 512) false 2 5 (toy_db true toy_img) ok))%N = VerdictEx.VErrOpen /\
+  VerdictEx.vclass_of (VerdictEx.tfull (f (len + 512) false 2 5 (toy_db true toy_img) ok))%N = VerdictEx.VTrue slot_new (L 2 (Some 6))%N /\
+  VerdictEx.vclass_of (VerdictEx.tfull (f (len + 8192) false 2 5 (toy_db true toy_img) ok))%N = VerdictEx.VTrue slot_new (L 3 (Some 5))%N /\
+  VerdictEx.vclass_of (VerdictEx.tfull (f (len + 100) false 2 5 (toy_db true toy_img) ok))%N = VerdictEx.VErrOpen /\
+  (* stored region counts: too large / too small (silently recomputed); with the recovery flag they are ignored *)
+  VerdictEx.vclass_of (VerdictEx.tfull (f len false 3 5 (toy_db true toy_img) ok))%N = VerdictEx.VErrOpen /\
+  VerdictEx.vclass_of (VerdictEx.tfull (f len false 1 5 (toy_db true toy_img) ok))%N = VerdictEx.VTrue slot_new (L 2 (Some 5))%N /\
+  VerdictEx.vclass_of (VerdictEx.tfull (f len true 900 77 (toy_db true toy_img) ok))%N = VerdictEx.VTrue slot_new (L 2 (Some 5))%N /\
+  (* a covered page byte under the 2-phase flag: the quick open succeeds, the check is an error *)
+  VerdictEx.vclass_of (VerdictEx.tfull (f len false 2 5 (toy_db true toy_img_altered) ok))%N = VerdictEx.VErrCheck /\
+  (* allocator state differs / table length not the recount: Ok(false), same slot *)
+  VerdictEx.vclass_of (VerdictEx.tfull (f len false 2 5 (toy_db true toy_img) (Some [5; 10]%N)))%N = VerdictEx.VFalse slot_new (L 2 (Some 5))%N /\
+  VerdictEx.vclass_of (VerdictEx.tfull_uncounted VerdictEx.toy_closed) = VerdictEx.VFalse slot_new (L 2 (Some 5))%N.
+Proof. vm_compute. repeat split; reflexivity. Qed.
+
+(* ... and the second check after the reported repair is clean *)
+Example c12_full_nonvacuous_second_check :
+  match VerdictEx.tfull_uncounted VerdictEx.toy_closed with
+  | Verdict.FOk _ _ false o => VerdictEx.tcheck VerdictEx.toy_closed o = Verdict.COk _ _ true o
+  | _ => False
+  end.
+Proof. vm_compute. reflexivity. Qed.
+
 (* ---- non-vacuity: H := identity on byte strings is injective; a concrete two-commit forest *)
 Example c12_instance_hypotheses :
   (forall a b, bytes_eqb a b = true <-> a = b) /\ (forall x y, H_id x = H_id y -> x = y).
